@@ -1467,7 +1467,97 @@ class C13(Prop):
                     res.oracle_failures.append(dict(key="C13|m.replace0|mutated-container-serializes-differently", case=case, detail=f"impl {v[:200]} model {M.get('repl','')[:200]}"))
 
 
-REGISTRY = {"C13": C13(), "C06": C06(), "C15": C15(), "C16": C16(), "C05": C05(), "C18": C18(), "C08": C08(), "C07": C07(), "C03": C03(), "C02": C02(), "C20": C20(), "C09": C09(), "C10": C10(), "C14": C14(), "C12": C12()}
+# ------------------------------------------------------------------------------------------
+# C11
+
+class C11(Prop):
+    rule = ("fixed path sets (shared prefixes, a prefix that is itself a target, repeated paths, the root path, missing keys, out-of-range indices, "
+            "empty containers) and generated duplicate-free documents with 1..7 shape-consistent paths derived from the document (a third of the sets with "
+            "a repeated path, two thirds allowing a missing key or an out-of-range index at the end of a path), through get_many and get_many_unchecked; "
+            "and generated (schema, document) pairs (schemas select a subset of the document's keys with defaults, plus absent keys) through "
+            "get_by_schema; every slot is compared with the specification's single-path lookup of that path (Lean), every schema result with the "
+            "specification's fill on the two trees; non-trivial = at least two paths, or a non-trivial schema")
+    trusted = ["HashMap iteration order of the trie and of the schema object is not observable in the results (dumps with sorted keys)"]
+    assumptions = ["documents are duplicate-free and path sets shape-consistent, as the property states (a key path and an index path through the same node panic in PointerTree::add_path)"]
+
+    def explore(self, ctx, res):
+        name = "c11"
+        cases_path = generate(ctx, name)
+        impl, model, crashed, err = run_stream(ctx, name, cases_path)
+        with open(cases_path) as f:
+            cases = f.read().splitlines()
+        if crashed or len(impl) != len(cases):
+            idx = min(len(impl), len(cases) - 1)
+            res.oracle_failures.append(dict(key="c11:process-abort", case=cases[idx], detail=f"harness exited abnormally after {len(impl)} of {len(cases)} cases: {err[-300:]}"))
+        n = min(len(impl), len(cases))
+        for i in range(n):
+            case = cases[i]
+            res.evaluations += 1
+            I = ctx["parse_fields"](impl[i])
+            M = ctx["parse_fields"](model[i]) if model and i < len(model) else {}
+            if model is not None and not M:
+                res.model_disagreements.append(dict(key="c11:model-output-missing", case=case, detail=""))
+                continue
+            if len(res.samples) < 6 and i % max(1, n // 6) == 0:
+                res.samples.append({"case": case[:200], "impl": impl[i][:300], "model": (model[i][:300] if model and i < len(model) else None)})
+            if impl[i].startswith("PANIC"):
+                res.oracle_failures.append(dict(key="C11|panic", case=case, detail="the library panicked"))
+                continue
+            if case.startswith("c11s "):
+                res.distribution["schema"] += 1
+                spec = M.get("spec")
+                got = I.get("schema")
+                if spec == "BADSCHEMA" or got == "BADSCHEMA":
+                    continue
+                if "{" in bytes.fromhex(case.split(" ")[1]).decode("utf-8", "replace")[1:]:
+                    res.nontrivial(case)
+                if spec == "NONOBJ":
+                    if got != "Err":
+                        res.oracle_failures.append(dict(key="C11|schema|non-object-schema-accepted", case=case, detail=f"impl {got[:200] if got else None}"))
+                    continue
+                if spec == "R":
+                    if got != "Err":
+                        res.distribution["schema:accepts-ill-formed-doc(see C02)"] += 1
+                    continue
+                if got != spec:
+                    res.oracle_failures.append(dict(key="C11|schema|result-differs-from-specification", case=case, detail=f"impl {got[:300] if got else None} spec {spec[:300] if spec else None}"))
+                continue
+            spec = M.get("spec", "").split(",")
+            npaths = len(spec)
+            res.distribution[f"paths:{min(npaths, 7)}"] += 1
+            if npaths >= 2:
+                res.nontrivial(case)
+            if M.get("wf") != "A":
+                continue
+            for fld in ("many", "manyu"):
+                got = I.get(fld)
+                if got is None or got == "skip":
+                    continue
+                allfound = all(x.startswith("A:") for x in spec)
+                if got == "Err":
+                    if allfound:
+                        res.oracle_failures.append(dict(key=f"C11|{fld}|fails-although-every-path-resolves", case=case, detail=f"spec {','.join(spec)[:300]}"))
+                    else:
+                        res.distribution[f"{fld}:error-with-unresolvable-path"] += 1
+                    continue
+                slots = got.split(",")
+                if len(slots) != npaths:
+                    res.oracle_failures.append(dict(key=f"C11|{fld}|wrong-number-of-slots", case=case, detail=f"impl {got[:200]} for {npaths} paths"))
+                    continue
+                for k, (g, w) in enumerate(zip(slots, spec)):
+                    if g.startswith("A:"):
+                        if g != w:
+                            res.oracle_failures.append(dict(key=f"C11|{fld}|slot-differs-from-single-get", case=case, detail=f"slot {k}: impl {g[:160]} spec {w[:160]}"))
+                            break
+                    elif g == "N":
+                        if w != "MK":
+                            res.oracle_failures.append(dict(key=f"C11|{fld}|empty-slot-without-missing-key", case=case, detail=f"slot {k}: impl N spec {w[:160]}"))
+                            break
+                if allfound and any(not g.startswith("A:") for g in slots):
+                    res.oracle_failures.append(dict(key=f"C11|{fld}|slot-empty-although-path-resolves", case=case, detail=f"impl {got[:300]}"))
+
+
+REGISTRY = {"C11": C11(), "C13": C13(), "C06": C06(), "C15": C15(), "C16": C16(), "C05": C05(), "C18": C18(), "C08": C08(), "C07": C07(), "C03": C03(), "C02": C02(), "C20": C20(), "C09": C09(), "C10": C10(), "C14": C14(), "C12": C12()}
 for _k, _v in REGISTRY.items():
     _v.pid = _k
 
